@@ -862,8 +862,8 @@ fn gen_c14(seed: u64, n: usize, tier: &str) {
         } as usize;
         // now and then a file of a few very wide matrices (hundreds of columns: lines of several kilobytes)
         let wide = rng.chance(1, 25);
-        let nrec = if wide { nrec.min(3) } else { nrec };
-        let maxw = if wide { 400 } else if nrec > 60 { 12 } else { 40 };
+        let nrec = if wide { nrec.min(if tier == "thorough" { 3 } else { 2 }) } else { nrec };
+        let maxw = if wide { if tier == "thorough" { 400 } else { 120 } } else if nrec > 60 { 12 } else { 40 };
         let recs: Vec<(Style, Src)> = (0..nrec).map(|_| gen_record(&mut rng, fmt, abc, maxw)).collect();
         // bytes before the first record (JASPAR formats), white space after the last
         let pre: Vec<u8> = if fmt != "uniprobe" && rng.chance(1, 5) {
